@@ -422,10 +422,10 @@ STMTS = ["return {nx}(n)", "x = {nx}(n); return x", "return ({nx}(\n        n))"
 EXC_MSGS = [None, "", "boom", "a: b", "l1\nl2", "\u00fcn\u00ef \u2713", "  spaced  ", "x\n", "m\n  File \"a\", line 1, in b", 42, ("a", "b")]
 
 
-def gen_ei(rng, tier):
-    depth = rng.choice([1, 1, 2, 3, 3, 4, 5, 6, 8, 12])
-    nmods = rng.choice([1, 1, 2, 3])
-    mods = rng.sample(MODNAMES, nmods)
+def gen_ei(rng, tier, mods=None, depths=(1, 1, 2, 3, 3, 4, 5, 6, 8, 12)):
+    depth = rng.choice(depths)
+    if mods is None:
+        mods = rng.sample(MODNAMES, rng.choice([1, 1, 2, 3]))
     src = {m: ["import sys", "class _Ctx:\n    def __enter__(self):\n        return self\n    def __exit__(self, *a):\n        return False"]
            for m in mods}
     for m in mods:
@@ -556,6 +556,39 @@ def gen_ei(rng, tier):
             "entry": [where[0], "c0"], "expect": expect, "full": rng.random() < 0.3}
 
 
+def gen_sess(rng, tier):
+    """Several exceptions in one process through module files that are rewritten (and usually reloaded)
+    in between: the source text linecache serves changes over time.  Per step the implementation is
+    observed FIRST (so nothing else refreshes linecache for it), then the interpreter's view is taken
+    at that same moment."""
+    mods = rng.sample(MODNAMES, rng.choice([1, 1, 2]))
+    steps = []
+    cur = None
+    for k in range(rng.choice([2, 2, 3, 4])):
+        mode = "load" if k == 0 else rng.choice(["reload", "reload", "reload", "reload", "noreload", "same", "delete"])
+        step = {"mode": mode, "full": rng.random() < 0.25, "first": rng.choice(["fmt", "fmt", "dict"]), "late": None, "after": None}
+        if mode in ("load", "reload", "noreload"):
+            prog = gen_ei(rng, tier, mods=mods, depths=(1, 2, 2, 3, 4, 6))
+            step["modules"] = prog["modules"]
+            if mode != "noreload":
+                cur = prog
+        else:
+            step["modules"] = []
+        step["entry"], step["expect"] = cur["entry"], cur["expect"]
+        # the file may also change between capturing the exception and first looking at the lines,
+        # and again before the text is asked for a second time
+        r = rng.random()
+        if r < 0.25 and mode != "delete":
+            step["late"] = rng.choice(["shift", "shift", "other"])
+        if rng.random() < 0.3:
+            step["after"] = rng.choice(["shift", "other", "delete"])
+        step["pad"] = rng.randint(1, 4)
+        if "other" in (step["late"], step["after"]):
+            step["other"] = gen_ei(rng, tier, mods=mods, depths=(1, 2, 3))["modules"]
+        steps.append(step)
+    return {"kind": "sess", "dir": rng.choice(DIRNAMES), "mods": mods, "steps": steps}
+
+
 RE_SEEDS = ['File "a.py", line 1, in f', 'File "a", line 5, in b.py", line 12, in <module>', 'File "a", line 1, in f\n',
             'File "a", line 1, in f\n\n', 'File "a", line 1, in f\ng', 'File "a\nb", line 1, in f', 'File "", line 1, in f',
             'File "a", line , in f', 'File "a", line 12', 'File "a", line 12, in ', ' File "a", line 1, in f', 'file "a", line 1, in f',
@@ -601,6 +634,8 @@ def generate(rng, tier, n):
             yield gen_raw(rng, tier)
         elif r < 0.80:
             yield gen_re(rng, tier)
+        elif r < 0.86:
+            yield gen_sess(rng, tier)
         else:
             yield gen_ei(rng, tier)
 
@@ -662,84 +697,151 @@ def run_impl(case):
     return _run_program(case)
 
 
+def _write_modules(d, modules):
+    for m, text in modules:
+        with open(os.path.join(d, m + ".py"), "w", encoding="utf-8") as f:
+            f.write(text)
+
+
+def _edit(d, how, step, mods):
+    """An edit of the module files on disk that does not touch the loaded code."""
+    if how is None:
+        return
+    if how == "delete":
+        for m in mods:
+            try:
+                os.remove(os.path.join(d, m + ".py"))
+            except FileNotFoundError:
+                pass
+    elif how == "other":
+        _write_modules(d, step["other"])
+    else:       # shift every line down
+        for m in mods:
+            path = os.path.join(d, m + ".py")
+            if os.path.exists(path):
+                with open(path, encoding="utf-8") as f:
+                    text = f.read()
+                with open(path, "w", encoding="utf-8") as f:
+                    f.write("# pad\n" * step["pad"] + text)
+
+
+def _raise_through(entry, expect):
+    try:
+        entry(0)
+    except Exception as e:     # the exception under observation
+        exc = e
+    else:
+        raise RuntimeError("generated program did not raise")
+    if type(exc).__name__ != expect:
+        raise RuntimeError("generated program raised %r, expected %s" % (exc, expect))
+    if exc.__cause__ is not None or exc.__context__ is not None or getattr(exc, "__notes__", None):
+        raise RuntimeError("generated program produced a chained exception")
+    return exc, exc.__traceback__.tb_next      # skip this harness frame
+
+
+def _capture(exc, tb, step, d, mods):
+    """tbutils' view FIRST (nothing else may refresh linecache for it), then the interpreter's view of the
+    same exception at the same moment (no file changes in between)."""
+    import traceback
+    from boltons import tbutils
+    et = type(exc)
+    # ---- boltons' view ------------------------------------------------------------------
+    ei = tbutils.ExceptionInfo.from_exc_info(et, exc, tb)       # lines are not read yet
+    _edit(d, step.get("late"), step, mods)
+    if step.get("first") == "dict":
+        dd = ei.to_dict()
+        fmt = ei.get_formatted()
+    else:
+        fmt = ei.get_formatted()
+        dd = ei.to_dict()
+    frames = [{"path": f["module_path"], "lineno": f["lineno"], "func": f["func_name"], "line": f["line"]}
+              for f in dd["exc_tb"]["frames"]]
+    obs = {"frames": frames, "type": dd["exc_type"], "msg": dd["exc_msg"], "fmt": fmt,
+           "only": ei.get_formatted_exception_only()}
+    if (ei.exc_type, ei.exc_msg) != (dd["exc_type"], dd["exc_msg"]):
+        raise RuntimeError("to_dict() differs from the attributes")
+    if step.get("full"):
+        obs["tbi"] = tbutils.TracebackInfo.from_traceback(tb).get_formatted()
+        obs["feo"] = "".join(tbutils.format_exception_only(et, exc))
+        buf = io.StringIO()
+        tbutils.print_exception(et, exc, tb, file=buf)
+        obs["print"] = buf.getvalue()
+        obs["parsed"] = _parse_obs(obs["fmt"])[0]
+    # ---- the interpreter's view, now ---------------------------------------------------------
+    summ = traceback.extract_tb(tb)
+    live = [{"file": fs.filename, "lineno": fs.lineno, "name": fs.name, "raw": fs._original_line} for fs in summ]
+    full = "".join(traceback.format_exception(et, exc, tb))
+    # the exception alone, as the interpreter shows it for this traceback (suggestions included)
+    shown = "".join(traceback.TracebackException(et, exc, tb).format_exception_only())
+    nomark = ("Traceback (most recent call last):\n" +
+              "".join(traceback.format_list([(fs.filename, fs.lineno, fs.name, fs._original_line) for fs in summ])) +
+              shown)
+    # the text without position markers must be the real text minus lines made of ~ ^ and blanks only
+    fl, nl = full.split("\n"), nomark.split("\n")
+    j = 0
+    for line in fl:
+        if j < len(nl) and line == nl[j]:
+            j += 1
+        elif not (line and set(line) <= set(" ~^")):
+            raise RuntimeError("interpreter text is not the marker-free text plus marker lines:\n%s\n---\n%s" % (full, nomark))
+    if j != len(nl):
+        raise RuntimeError("marker-free text is not a subsequence of the interpreter's text")
+    assert nomark.endswith("\n") and shown.endswith("\n")
+    try:
+        exc_str = str(exc)
+    except Exception:
+        exc_str = None
+    obs["live"] = live
+    obs["exc"] = {"module": et.__module__, "qualname": et.__qualname__, "name": et.__name__, "str": exc_str,
+                  "shown": shown[:-1]}
+    obs["interp"] = nomark[:-1]
+    # ---- later: the file changes again; the ExceptionInfo object is asked once more ----------
+    if "after" in step:
+        _edit(d, step.get("after"), step, mods)
+        obs["again"] = ei.get_formatted()
+    return obs
+
+
 def _run_program(case):
     import importlib
     import linecache
-    import traceback
-    from boltons import tbutils
     if _ROOT[0] is None:
         worker_init()
     _COUNTER[0] += 1
     d = os.path.join(_ROOT[0], str(_COUNTER[0]), case["dir"])
     os.makedirs(d)
-    names = [m for m, _ in case["modules"]]
-    for m, text in case["modules"]:
-        with open(os.path.join(d, m + ".py"), "w", encoding="utf-8") as f:
-            f.write(text)
+    if case["kind"] == "ei":
+        steps = [{"mode": "load", "modules": case["modules"], "entry": case["entry"], "expect": case["expect"],
+                  "full": case.get("full"), "first": "dict"}]
+        names = [m for m, _ in case["modules"]]
+    else:
+        steps, names = case["steps"], case["mods"]
     for m in names:
         sys.modules.pop(m, None)
     sys.path.insert(0, d)
-    importlib.invalidate_caches()
     try:
-        mod = importlib.import_module(case["entry"][0])
-        entry = getattr(mod, case["entry"][1])
-        try:
-            entry(0)
-        except Exception as e:     # the exception under observation
-            exc = e
-        else:
-            raise RuntimeError("generated program did not raise")
-        if type(exc).__name__ != case["expect"]:
-            raise RuntimeError("generated program raised %r, expected %s" % (exc, case["expect"]))
-        if exc.__cause__ is not None or exc.__context__ is not None or getattr(exc, "__notes__", None):
-            raise RuntimeError("generated program produced a chained exception")
-        et, tb = type(exc), exc.__traceback__.tb_next      # skip this harness's own frame
-        # ---- the interpreter's view --------------------------------------------------------
-        summ = traceback.extract_tb(tb)
-        live = [{"file": fs.filename, "lineno": fs.lineno, "name": fs.name, "raw": fs._original_line} for fs in summ]
-        full = "".join(traceback.format_exception(et, exc, tb))
-        # the exception alone, as the interpreter shows it for this traceback (suggestions included)
-        shown = "".join(traceback.TracebackException(et, exc, tb).format_exception_only())
-        nomark = ("Traceback (most recent call last):\n" +
-                  "".join(traceback.format_list([(fs.filename, fs.lineno, fs.name, fs._original_line) for fs in summ])) +
-                  shown)
-        # the text without position markers must be the real text minus lines made of ~ ^ and blanks only
-        fl, nl = full.split("\n"), nomark.split("\n")
-        j = 0
-        for line in fl:
-            if j < len(nl) and line == nl[j]:
-                j += 1
-            elif not (line.strip() and set(line) <= set(" ~^")):
-                raise RuntimeError("interpreter text is not the marker-free text plus marker lines:\n%s\n---\n%s" % (full, nomark))
-        if j != len(nl):
-            raise RuntimeError("marker-free text is not a subsequence of the interpreter's text")
-        assert nomark.endswith("\n")
-        assert shown.endswith("\n")
-        try:
-            exc_str = str(exc)
-        except Exception:
-            exc_str = None
-        exc_info = {"module": et.__module__, "qualname": et.__qualname__, "name": et.__name__, "str": exc_str,
-                    "shown": shown[:-1]}
-        # ---- boltons' view ------------------------------------------------------------------
-        ei = tbutils.ExceptionInfo.from_exc_info(et, exc, tb)
-        dd = ei.to_dict()
-        frames = [{"path": f["module_path"], "lineno": f["lineno"], "func": f["func_name"], "line": f["line"]}
-                  for f in dd["exc_tb"]["frames"]]
-        obs = {"live": live, "exc": exc_info, "interp": nomark[:-1], "frames": frames, "type": dd["exc_type"],
-               "msg": dd["exc_msg"], "fmt": ei.get_formatted(), "only": ei.get_formatted_exception_only()}
-        if (ei.exc_type, ei.exc_msg) != (dd["exc_type"], dd["exc_msg"]):
-            raise RuntimeError("to_dict() differs from the attributes")
-        if case.get("full"):
-            obs["tbi"] = tbutils.TracebackInfo.from_traceback(tb).get_formatted()
-            obs["feo"] = "".join(tbutils.format_exception_only(et, exc))
-            buf = io.StringIO()
-            tbutils.print_exception(et, exc, tb, file=buf)
-            obs["print"] = buf.getvalue()
-            obs["parsed"] = _parse_obs(obs["fmt"])[0]
+        out = []
+        entry = None
+        for step in steps:
+            mode = step["mode"]
+            if mode == "delete":
+                _edit(d, "delete", step, names)
+            else:
+                _write_modules(d, step["modules"])
+            if mode in ("load", "reload"):
+                for m in names:
+                    sys.modules.pop(m, None)
+                importlib.invalidate_caches()
+                mod = importlib.import_module(step["entry"][0])
+                entry = getattr(mod, step["entry"][1])
+            exc, tb = _raise_through(entry, step["expect"])
+            out.append(_capture(exc, tb, step, d, names))
+            del exc, tb
         root = os.path.dirname(d)
-        obs["root"] = root
-        return obs
+        if case["kind"] == "ei":
+            out[0]["root"] = root
+            return out[0]
+        return {"steps": out, "root": root}
     finally:
         sys.path.remove(d)
         for m in names:
@@ -811,7 +913,17 @@ def to_coq(case, obs):
         g = obs["groups"]
         term = "CaseRe %s %s %s" % (cN(case["which"]), I.t(case["s"]),
                                     "None" if g is None else "(Some %s)" % clist(I.t(x) for x in g))
+    elif kind == "sess":
+        term = "CaseSess %s" % clist("(%s, %s)" % (_ei_args(I, o, tuple_=True),
+                                                   "None" if "again" not in o else "(Some %s)" % I.t(o["again"]))
+                                     for o in obs["steps"])
     else:
+        term = "CaseEI %s" % _ei_args(I, obs)
+    return I.wrap(term)
+
+
+def _ei_args(I, obs, tuple_=False):
+    if True:
         live = clist("mkLive %s %s %s %s" % (I.s(l["file"]), cN(l["lineno"]), I.s(l["name"]), I.s(l["raw"])) for l in obs["live"])
         e = obs["exc"]
         exc = "(mkExc %s %s %s %s %s)" % (I.s(e["module"]), I.s(e["qualname"]), I.s(e["name"]),
@@ -822,8 +934,7 @@ def to_coq(case, obs):
         else:
             more = "None"
         o = "(mkEiObs %s %s %s %s %s %s)" % (frames, I.s(obs["type"]), I.t(obs["msg"]), I.t(obs["fmt"]), I.t(obs["only"]), more)
-        term = "CaseEI %s %s %s %s" % (live, exc, I.t(obs["interp"]), o)
-    return I.wrap(term)
+        return ("(%s, %s, %s, %s)" if tuple_ else "%s %s %s %s") % (live, exc, I.t(obs["interp"]), o)
 
 
 # ----------------------------------------------------------------------------------------------
@@ -840,6 +951,13 @@ def corrupt(case, obs):
             bad["parsed"]["type"] = bad["parsed"]["type"] + "x"
             return bad
         return None
+    if kind == "sess":
+        o = bad["steps"][-1]
+        if o["live"]:
+            o["frames"][-1]["line"] = o["frames"][-1]["line"] + " x"
+        else:
+            o["type"] += "x"
+        return bad
     if obs["frames"]:
         bad["frames"][0]["lineno"] += 1
     else:
@@ -853,6 +971,16 @@ def nontrivial(case, obs):
         return case["bad"] is None and len(fr) >= 2 and any(not f["src"] for f in fr)
     if case["kind"] == "ei":
         return len(obs["frames"]) >= 3
+    if case["kind"] == "sess":
+        # the text linecache serves for some (file, line) changed between two steps
+        seen, changed = {}, False
+        for o in obs["steps"]:
+            for l in o["live"]:
+                k = (l["file"], l["lineno"])
+                if k in seen and seen[k] != l["raw"]:
+                    changed = True
+                seen[k] = l["raw"]
+        return changed
     return False
 
 
@@ -873,6 +1001,16 @@ def distribution(d, case, obs):
         inc("rt_outcome", "parsed" if "err" not in obs["parsed"] else obs["parsed"]["err"])
     elif kind == "re":
         inc("re_outcome", "%s:%s" % (("frame", "se_frame", "underline")[case["which"]], "match" if obs["groups"] is not None else "no"))
+    elif kind == "sess":
+        inc("sess_steps", str(len(obs["steps"])))
+        for st, o in zip(case["steps"], obs["steps"]):
+            inc("sess_mode", st["mode"])
+            inc("sess_late_edit", str(st.get("late")))
+            inc("sess_after_edit", str(st.get("after")))
+            if "again" in o and o["again"] != o["interp"]:
+                inc("sess_again_differs_from_current_file", "n/a (cached lines kept)")
+        if nontrivial(case, obs):
+            inc("sess_source_changed_under_same_location", "yes")
     elif kind == "raw":
         inc("raw_outcome", "parsed" if "err" not in obs["parsed"] else obs["parsed"]["err"])
         if isinstance(obs["printed"], dict):
@@ -891,6 +1029,9 @@ def distribution(d, case, obs):
 def sample(case, obs):
     if case["kind"] == "re":
         return {"case": case, "groups": obs["groups"]}
+    if case["kind"] == "sess":
+        return {"kind": "sess", "modes": [st["mode"] for st in case["steps"]],
+                "fmt": [o["fmt"].replace(obs["root"], "<tmp>") for o in obs["steps"]]}
     if case["kind"] == "ei":
         return {"kind": "ei", "fmt": obs["fmt"].replace(obs["root"], "<tmp>"), "interp": obs["interp"].replace(obs["root"], "<tmp>")}
     return {"case": case, "obs": obs}
@@ -919,6 +1060,16 @@ def shrink(case):
                 c = dict(case)
                 c[key] = val
                 yield c
+    elif kind == "sess":
+        st = case["steps"]
+        if len(st) > 1:
+            yield dict(case, steps=st[:-1])
+        for i, x in enumerate(st):
+            for key in ("late", "after"):
+                if x.get(key):
+                    y = dict(x)
+                    y[key] = None
+                    yield dict(case, steps=st[:i] + [y] + st[i + 1:])
     elif kind == "re":
         t = case["s"]
         for i in range(len(t)):
